@@ -50,22 +50,48 @@ def run_kani(harness_text, harnesses, features='all_msgs', jobs=16, timeout=3600
         timed_out = True
     wall = time.time() - t0
     res = {}
-    # split per harness
-    parts = re.split(r'(?m)^(?:Thread \d+: )?Checking harness ([\w:]+)\.\.\.', out)
-    # parts: [pre, name1, body1, name2, body2...]
-    for i in range(1, len(parts) - 1, 2):
-        name = parts[i].split('::')[-1]
-        body = parts[i + 1]
-        m = RES_RE.search(body)
-        tm = re.search(r'Verification Time: ([\d.]+)s', body)
-        st = 'tool'
+    # With -j the output is interleaved per worker: "Thread N: Checking harness X..." announces the harness a
+    # worker runs next, and its result block follows later as "Thread N: \nVERIFICATION RESULT ... Verification Time".
+    cur = {}
+    blocks = []   # (harness, text)
+    lines = out.split('\n')
+    i = 0
+    active = None
+    buf = []
+    for ln in lines:
+        m = re.match(r'^(?:Thread (\d+): )?Checking harness ([\w:]+)\.\.\.', ln)
         if m:
-            st = 'ok' if m.group(1) == 'SUCCESSFUL' else 'failed'
+            cur[m.group(1) or '0'] = m.group(2).split('::')[-1]
+            if m.group(1) is None:
+                if active is not None:
+                    blocks.append((active, '\n'.join(buf)))
+                active, buf = cur['0'], []
+            continue
+        m = re.match(r'^Thread (\d+): ?$', ln)
+        if m:
+            if active is not None:
+                blocks.append((active, '\n'.join(buf)))
+            active, buf = cur.get(m.group(1)), []
+            continue
+        if active is not None:
+            buf.append(ln)
+            if ln.startswith('Verification Time:'):
+                blocks.append((active, '\n'.join(buf)))
+                active, buf = None, []
+    if active is not None:
+        blocks.append((active, '\n'.join(buf)))
+    for name, body in blocks:
+        m = RES_RE.search(body)
+        if not m:
+            continue
+        tm = re.search(r'Verification Time: ([\d.]+)s', body)
+        st = 'ok' if m.group(1) == 'SUCCESSFUL' else 'failed'
         fails = re.findall(r'(?m)^Failed Checks: (.*)$', body)
         if st == 'failed' and fails and all('unwinding assertion' in f for f in fails):
             st = 'tool'
+        covers = re.search(r'(\d+) of (\d+) cover properties satisfied', body)
         res[name] = {'status': st, 'detail': body.strip()[-2500:], 'time_s': float(tm.group(1)) if tm else None,
-                     'failed_checks': fails}
+                     'failed_checks': fails, 'covers': (int(covers.group(1)), int(covers.group(2))) if covers else None}
     for h in harnesses:
         if h not in res:
             res[h] = {'status': 'tool', 'detail': ('timeout after %ds\n' % timeout if timed_out else '') + out[-3000:], 'time_s': None, 'failed_checks': []}
